@@ -135,6 +135,7 @@ impl Crumb {
     }
     /// Record the case about to run (one pwrite; survives the death of the process).
     pub fn mark(&mut self, prop: &str, cfg: &str, shape: Shape, kind: &str, vals: &mut dyn Iterator<Item = u32>) {
+        tick();
         let Some(f) = &self.file else { return };
         self.buf.clear();
         let _ = write!(self.buf, "prop {}\ncfg {}\nshape {}\n{}", prop, cfg, shape_name(shape), kind);
@@ -306,16 +307,69 @@ pub fn run_task(task: &Task, crumb: &mut Crumb) -> Stats {
     stats
 }
 
+/// per-worker progress counters (cases started), read by the watchdog
+pub static PROGRESS: [std::sync::atomic::AtomicU64; 64] = [const { std::sync::atomic::AtomicU64::new(0) }; 64];
+thread_local! {
+    static WORKER: std::cell::Cell<usize> = const { std::cell::Cell::new(usize::MAX) };
+}
+#[inline]
+fn tick() {
+    WORKER.with(|w| {
+        let i = w.get();
+        if i < 64 {
+            PROGRESS[i].fetch_add(1, Ordering::Relaxed);
+        }
+    });
+}
+
+/// Watchdog: a worker that starts no new case for `limit_s` seconds is stuck inside one case
+/// (e.g. a loop over 2^64 zero-sized elements). That is reported as *inconclusive* (exit 3),
+/// never as a violation; the breadcrumb of the stuck worker names the case.
+fn watchdog(threads: usize, limit_s: u64, done: &std::sync::atomic::AtomicBool, tagname: &str) {
+    let mut last: Vec<(u64, std::time::Instant)> = (0..threads).map(|i| (PROGRESS[i].load(Ordering::Relaxed), std::time::Instant::now())).collect();
+    let mut idle_mark: Vec<bool> = vec![false; threads];
+    while !done.load(Ordering::Relaxed) {
+        std::thread::sleep(std::time::Duration::from_millis(200));
+        for i in 0..threads {
+            let now = PROGRESS[i].load(Ordering::Relaxed);
+            if now == u64::MAX {
+                idle_mark[i] = true; // worker finished
+                continue;
+            }
+            if now != last[i].0 {
+                last[i] = (now, std::time::Instant::now());
+            } else if !idle_mark[i] && last[i].1.elapsed().as_secs() >= limit_s {
+                eprintln!("[pbt {}] HANG: worker {} made no progress for {} s (case in its breadcrumb): inconclusive", tagname, i, limit_s);
+                std::process::exit(3);
+            }
+        }
+    }
+}
+
 /// Run tasks on `threads` worker threads.
 pub fn run_tasks(tasks: &[Task], threads: usize, crumb_dir: Option<&str>, tagname: &str) -> Stats {
     let next = AtomicUsize::new(0);
     let total = Mutex::new(Stats::default());
+    let threads = threads.clamp(1, 64);
+    let done = std::sync::atomic::AtomicBool::new(false);
+    let live = AtomicUsize::new(threads);
+    let hang_limit: u64 = std::env::var("VERIF_HANG_S").ok().and_then(|s| s.parse().ok()).unwrap_or(180);
+    for p in PROGRESS.iter() {
+        p.store(0, Ordering::Relaxed);
+    }
     std::thread::scope(|sc| {
+        {
+            let done = &done;
+            sc.spawn(move || watchdog(threads, hang_limit, done, tagname));
+        }
+        let live = &live;
+        let done = &done;
         for t in 0..threads.max(1) {
             let next = &next;
             let total = &total;
             let crumb_path = crumb_dir.map(|d| format!("{}/{}.{}.crumb", d, tagname, t));
             sc.spawn(move || {
+                WORKER.with(|w| w.set(t));
                 let mut crumb = Crumb::new(crumb_path);
                 let mut local = Stats::default();
                 loop {
@@ -326,7 +380,11 @@ pub fn run_tasks(tasks: &[Task], threads: usize, crumb_dir: Option<&str>, tagnam
                     let s = run_task(&tasks[i], &mut crumb);
                     local.merge(s);
                 }
+                PROGRESS[t].store(u64::MAX, Ordering::Relaxed);
                 total.lock().unwrap().merge(local);
+                if live.fetch_sub(1, Ordering::Relaxed) == 1 {
+                    done.store(true, Ordering::Relaxed);
+                }
             });
         }
     });
